@@ -225,6 +225,9 @@ pub struct LogicalOpts {
     /// (concat) packs (bit p-1) that are left out of the concatenated file (a "light edition"):
     /// with empty recorded locations they can be found nowhere
     pub concat_leave_out: u32,
+    /// (concat, with `concat_leave_out`) the left-out pack files stay beside the one-file edition,
+    /// under names the manifest does not record
+    pub keep_left_out: bool,
     /// (loose / concat) a second content pack with the id of pack 1 is listed after the others: an
     /// "alternative" (the format allows several packs per id; the one declared first wins)
     pub alternative_of_pack1: bool,
@@ -1122,8 +1125,15 @@ fn build_inner(
                 jbk::tools::concat(&order, utf8(&out))?;
                 let mut kept = vec![out.clone()];
                 for f in &files {
+                    let left_out = (1..=logical.n_packs).any(|p| logical.opts.concat_leave_out & (1 << (p - 1)) != 0 && pack_files.get(&p) == Some(f));
                     if logical.opts.keep_loose_beside && *f != man_path {
                         kept.push(f.clone());
+                    } else if logical.opts.keep_left_out && left_out {
+                        // the pack that is not part of the one-file edition lies beside it, under
+                        // a name the manifest does not record
+                        let to = dir.join(format!("{name}.separately-shipped-{}.jbkc", kept.len()));
+                        std::fs::rename(f, &to)?;
+                        kept.push(to);
                     } else {
                         std::fs::remove_file(f)?;
                     }
